@@ -135,6 +135,19 @@ def funcdef(draw, indent=0, method=False, depth=0, hazards=(), feat=None):
         hdr.append(pad + defkw + name + "(" + ", ".join(args) + ")" + (" -> %s" % ret_ann if ret_ann else "") + ":")
     body = []
     bpad = pad + "    "
+    if depth == 0 and not is_async and draw(st.integers(0, 7)) == 0:
+        # a stub: the body consists SOLELY of a docstring - informative, blank, or an IDE skeleton of bare fields
+        kind = draw(st.sampled_from(["informative", "blank", "skeleton"]))
+        feat.append("stub:" + kind)
+        if kind == "informative":
+            lines = DOCS[draw(st.sampled_from(["rest", "google", "numpydoc"]))](ps + kwonly, None, draw(sentence(2, 6)).capitalize() + ".", True)
+        elif kind == "blank":
+            lines = [draw(st.sampled_from(["", " ", "  "]))]
+        else:
+            lines = [":param %s:" % p["name"] for p in ps + kwonly] + [":return:"]
+        if len(lines) == 1:
+            return hdr + [bpad + '"""' + lines[0] + '"""']
+        return hdr + [bpad + '"""'] + [(bpad + l) if l else "" for l in lines] + [bpad + '"""']
     if style:
         feat.append("doc:" + style)
         documented = [p for p in ps + kwonly if draw(st.booleans())] if draw(st.booleans()) else ps + kwonly
